@@ -25,9 +25,9 @@ class K2 {
     b: V
 }
 class K3 {
-    a: "t" >> V
+    _a: "t" >> V
     b: V
-    c: V
+    c_: V
 }
 class J1 {
     a: "v" >> V
@@ -51,7 +51,7 @@ ignore Space = /[ \n]+/
 '''
 
 ARITY = {'K0': 0, 'K1': 1, 'K2': 2, 'K3': 3, 'J1': 1, 'J2': 2}
-FIELDS = {'K0': (), 'K1': ('a',), 'K2': ('a', 'b'), 'K3': ('a', 'b', 'c'), 'J1': ('a',), 'J2': ('a', 'b'),
+FIELDS = {'K0': (), 'K1': ('a',), 'K2': ('a', 'b'), 'K3': ('_a', 'b', 'c_'), 'J1': ('a',), 'J2': ('a', 'b'),
           'Infix': ('left', 'operator', 'right'), 'Prefix': ('operator', 'right'),
           'Postfix': ('left', 'operator')}
 
